@@ -188,9 +188,10 @@ class LogicalType(type):  # noqa
         args = []
         resolved = False
         for i, arg in enumerate(cls.args):
-            arg, resolved = resolve_forward_type(arg)
-            if resolved:
+            arg, arg_resolved = resolve_forward_type(arg)
+            if arg_resolved:
                 arg = cls._parse_arg(arg)
+                resolved = True
             args.append(arg)
         if resolved:
             # only adjust args if resolved
@@ -1857,11 +1858,15 @@ class Rule(metaclass=LogicalType):
     @classmethod
     def resolve_forward_refs(cls):
         # an override version of LogicalType.resolve_forward_refs
+        resolved = False
+        if isinstance(cls.__origin__, LogicalType):
+            # Optional['forward'] / Union['forward', int]: the references are the args of the origin
+            if cls.__origin__.resolve_forward_refs():
+                resolved = True
         if not cls.__args__:
-            return False
+            return resolved
         args = []
         arg_transformers = []
-        resolved = False
         for arg, trans in zip(cls.__args__, cls.__arg_transformers__):
             if isinstance(arg, LogicalType):
                 # including the Rule class and LogicalType with combinator
